@@ -6,7 +6,7 @@ TECHNIQUE = 'deterministic simulation: seeded multi-user command histories (incl
 LEVEL = 'exploration'
 RULE = ('one case = a seeded history (3..12 commands) of snapshot / delete / clean / restore / listings by 1..3 users of one '
         'repository (unencrypted, same family via shared/clone keys, independent keys) over overlapping file sets, '
-        'non-destructive commands optionally overlapping in time (two Repository objects on one loop); after every command '
+        'non-destructive commands optionally overlapping in time (two Repository objects on one loop); users are processes per command or long-lived programs keeping their Repository object (per user, or one object for all with unlock() switching); a share of the histories starts with 10..13 snapshots at concurrency 1 or runs over the real B2 / S3 adapters on the fake services; after every command '
         'an independent reader decodes the whole store (every referenced chunk exists and hashes to its digest, listed == '
         'model), the operation journal shows no delete of a referenced chunk, and after every destructive command and at the '
         'end every remaining snapshot is restored by its owner and compared with the captured contents. '
